@@ -900,7 +900,7 @@ def particle_status(
             + "list/tuple/array of int values"
         )
     if isinstance(status_list, (list, tuple, np.ndarray)):
-        if any(not isinstance(val, int) for val in status_list):
+        if any(not isinstance(val, (int, np.integer)) for val in status_list):
             raise TypeError("status_list contains non int value")
 
     if isinstance(status_list, int):
